@@ -544,7 +544,7 @@ func doPf(r PfReq, segName string, scratch string, emit func(interface{})) {
 		os.MkdirAll(filepath.Join(root, "d", "sub"), 0755)
 		os.MkdirAll(filepath.Join(root, "e"), 0755)
 		os.WriteFile(filepath.Join(root, "d", "f1"), []byte("one"), 0644)
-		os.WriteFile(filepath.Join(root, "d", "sub", "f2"), []byte("two2"), 0644)
+		os.WriteFile(filepath.Join(root, "d", "sub", "f2"), []byte{}, 0644) // a zero-length file has a length too
 		h = &webdav.Handler{FileSystem: webdav.LocalFileSystem(root)}
 		ids = map[string]string{"/d": "dir", "/d/": "dir", "/d/f1": "dir/f1", "/d/sub": "dir/sub", "/d/sub/": "dir/sub", "/d/sub/f2": "dir/sub/f2", "/e": "emptydir", "/e/": "emptydir"}
 		target = map[string]string{"dir": "/d", "file": "/d/f1", "emptydir": "/e"}[r.Res]
